@@ -113,6 +113,25 @@ func v6BsAlphabet(multi, thorough bool) []string {
 	return out
 }
 
+// At sequence length 3 (thorough) one representative per class of answer is used: honest; decodable but
+// not verifying (other coordinates, other square, changed share); not decodable (truncated); message
+// structure faults (missing / extra message); the three ways a peer refuses (NOT_FOUND, INTERNAL,
+// rate-limit reset); silence; refused dial.
+var v6DeepShrex = map[string]bool{"honest": true, "other:0": true, "othersq": true, "trunc": true, "truncmsg": true, "ext": true,
+	"gshare": true, "nf": true, "internal": true, "ratelimit": true, "hang": true, "dialfail": true}
+var v6DeepBs = map[string]bool{"honest": true, "forged-other": true, "othersq": true, "garbage": true, "silent": true, "ext": true}
+
+func v6Filter(alpha []string, keep map[string]bool) []string {
+	var out []string
+	for _, a := range alpha {
+		k, _, _ := v6ParseBsPeer(a)
+		if keep[a] || keep[k] {
+			out = append(out, a)
+		}
+	}
+	return out
+}
+
 func v6Phases(sqs []*v6Square, b v6Bounds) []v6Phase {
 	type pool struct {
 		bl    bool
@@ -133,12 +152,17 @@ func v6Phases(sqs []*v6Square, b v6Bounds) []v6Phase {
 				for _, r := range s.reqs {
 					keys := r.Keys(s)
 					alpha := s.answersFor(keys[0], len(keys) == 1)
+					pools := pools
+					if maxLen >= 3 {
+						alpha = v6Filter(alpha, v6DeepShrex)
+						pools = pools[:2]
+					}
 					for _, seq := range v6Seqs(alpha, maxLen, v6ShrexTerminal) {
 						if len(seq) != maxLen {
 							continue // shorter sequences belong to the earlier phases
 						}
 						extra := []string{"d5m0.5s"}
-						if b.thorough {
+						if b.thorough && maxLen < 3 {
 							extra = append(extra, "c1500ms")
 						}
 						seq2s := [][]string{nil}
@@ -173,13 +197,16 @@ func v6Phases(sqs []*v6Square, b v6Bounds) []v6Phase {
 			for _, wiring := range []string{"bs-light", "bs-bridge"} {
 				for _, s := range sqs {
 					for _, r := range s.reqs {
-						alpha := v6BsAlphabet(v6CountCIDs(s, r) > 1, b.thorough)
+						alpha := v6BsAlphabet(v6CountCIDs(s, r) > 1, b.thorough && maxLen < 3)
+						if maxLen >= 3 {
+							alpha = v6Filter(alpha, v6DeepBs)
+						}
 						for _, seq := range v6Seqs(alpha, maxLen, v6BsTerminal) {
 							if len(seq) != maxLen {
 								continue
 							}
 							extra := []string{}
-							if b.thorough {
+							if b.thorough && maxLen < 3 {
 								extra = append(extra, "c1500ms")
 							}
 							for _, d := range v6Deadlines(len(seq), extra...) {
@@ -404,7 +431,7 @@ func TestVerifC06(t *testing.T) {
 		}
 	}
 
-	deadline := rep.Deadline(75*time.Second, 15*time.Minute)
+	deadline := rep.Deadline(85*time.Second, 16*time.Minute)
 	stats := &v6Stats{outcomes: map[string]int64{}, byWiring: map[string]int64{}, byClass: map[string]int64{}, sigCount: map[string]int64{}, sigFirst: map[string]v6Case{}}
 	var capped atomic.Bool
 
@@ -501,6 +528,7 @@ func TestVerifC06(t *testing.T) {
 		"shrex_answer_alphabet":        v6ShrexAnswers,
 		"bitswap_peer_alphabet":        v6BsKinds,
 		"shrex_sequence_length":        b.shrexLen,
+		"reduced_alphabets_at_length_3": map[string]any{"shrex": v6DeepShrex, "bitswap": v6DeepBs},
 		"shrex_sequence_length_extra_squares": b.shrexLenX,
 		"bitswap_sequence_length":      b.bsLen,
 		"cascade_shrex_sequence_length": b.cascadeLen,
